@@ -994,8 +994,8 @@ class Consumer(object):
         proc_block_end = proc_block_size
 
         while proc_block_begin < len(messages) and not self._shuttingdown:
-            if self._start_d is None or self._start_d.called:
-                # We have been stopped, or a failure has been reported to
+            if self._stopping or self._start_d is None or self._start_d.called:
+                # We are being or have been stopped, or a failure has been reported to
                 # the user (such as an earlier block failing in the
                 # processor): do not feed the processor any further.
                 break
